@@ -244,6 +244,9 @@ func c05History(c *rt.Ctx, fsType string, osType avfs.OSType, h int) {
 		kind := o.K
 		if fatalRes(res) {
 			c.Rep.Count("histories_ended_by_panic_or_deadlock", 1) // C07's business
+			if len(c.Rep.Notes) < 6 {
+				c.Rep.Notes = append(c.Rep.Notes, fmt.Sprintf("%s: %s -> %s (%s) after %v", tag, o, res.Err, res.Raw, hist[max(0, len(hist)-12):]))
+			}
 			return
 		}
 		post := fsx.Snap(v, root, opt)
